@@ -209,6 +209,49 @@ def grayDecode (w val : Nat) : Option Nat :=
   if w = 0 then none
   else some (grayDecodeGo val (w - 1) (if val.testBit (w - 1) then 2 ^ (w - 1) else 0))
 
+/-! ## synchronizeGrayCode (cdc.cpp:72-82, cdc.h:76-110)
+
+```
+grayDecode(synchronize(grayEncode(in), [grayEncode(reset),] inClock, outClock, params))
+synchronize: if (params.inStage) val = reg(val, [reset,] {.clock = inClock});
+             for (i < params.outStages) val = reg(val, [reset,] {.clock = syncRegClock});      // derived from outClock
+```
+All registers hold gray code; with the reset overload every register's reset value is `grayEncode(reset)`, without it the
+registers have no reset (undefined = `none` until loaded). -/
+
+structure GraySync where
+  w : Nat
+  outStages : Nat
+  inStage : Bool
+  reset : Option Nat
+  deriving Repr
+
+structure GraySyncState where
+  inReg : Option Nat                -- the register in the input clock domain (unused when `inStage = false`)
+  stages : List (Option Nat)        -- the synchronizer chain in the output clock domain, first stage first
+  deriving Repr, BEq, DecidableEq
+
+/-- register contents at power-on / during reset -/
+def graySyncInit (c : GraySync) : GraySyncState :=
+  ⟨c.reset.map grayEncode, List.replicate c.outStages (c.reset.map grayEncode)⟩
+
+/-- one instant at which the registers of the input domain (`a`) and / or of the output domain (`b`) take their inputs
+(simultaneously, from the values before the instant); `inp` = the input word at that instant.  An edge that falls into the
+domain's reset cycle is not such an instant for registers that have a reset value. -/
+def graySyncStep (c : GraySync) (s : GraySyncState) (a b : Bool) (inp : Nat) : GraySyncState :=
+  let g := some (grayEncode inp)
+  let src := if c.inStage then s.inReg else g
+  ⟨if a then g else s.inReg, if b then src :: s.stages.dropLast else s.stages⟩
+
+/-- `grayDecode` of the last stage -/
+def graySyncOut (c : GraySync) (s : GraySyncState) : Option Nat :=
+  match s.stages.getLast? with
+  | some (some g) => grayDecode c.w g
+  | _ => none
+
+def graySyncRun (c : GraySync) (s : GraySyncState) (es : List (Bool × Bool × Nat)) : GraySyncState :=
+  es.foldl (fun s e => graySyncStep c s e.1 e.2.1 e.2.2) s
+
 /-! ## min / max (math.h:41-55): `ret = a; IF(a > b) ret = b;` — operands of different width are rejected
 
 For `SInt` the frontend's comparison is `lt(l, r) = (sext(l, w+1) - sext(r, w+1)).sign()`, `gt(l, r) = lt(r, l)`
